@@ -133,7 +133,7 @@ CHECKS = {
 ADDED = {
     "C01": "Both arguments in every documented form: packages saved to a stream, a path or a real file object, opened from a path, a directory, an in-memory stream with its cursor at 0 / 4 / the end, or a real file object. Part names with percent-escapes; two sources in different directories spelling equal Targets for different parts.",
     "C02": "Types of loaded parts are compared with the INPUT's own [Content_Types] at every save; every corpus deck is a start state once per run; a third of the non-default histories start with a save before any access; re-opens use the stream as the save left it; ops include re-assigning the same link / jump, dropping a layout and re-adding its image, same-stream / same-path saves. Relationship ids of loaded decks shifted / gapped / not of the form rId<N> (renumber_rids); manufactured decks whose notes-slide names are assigned by the harness at zip level; blank hyperlink Targets.",
-    "C03": "Plus 64 / 3 000 histories on targets saturated with schema-permitted siblings (vlib/instgen.py, profile sat), a sweep assigning every in-domain value of every C09-table row and validating the part, and the documented rejections of that table re-validated. The fill operation reads colours after switching kind and assigns an unusable colour. fit_text (explicit font file) among the text-frame operations when a DejaVu font is installed.",
+    "C03": "Plus 64 / 3 000 histories on targets saturated with schema-permitted siblings (vlib/instgen.py, profile sat), a sweep assigning every in-domain value of every C09-table row and validating the part, and the documented rejections of that table re-validated. The fill operation reads colours after switching kind and assigns an unusable colour. fit_text (explicit font file) among the text-frame operations when a DejaVu font is installed. Positions given as floats (what Length arithmetic yields) to every add_* call.",
     "C04": "A seventh prior state holds the assigned string in one run (reads alike, built differently); a third of the assignments go through a proxy object that was assigned through before; non-NFC text among the tokens.",
     "C05": "Two links to near-variant addresses on one slide, strings of exactly the documented maximum length, non-NFC / non-NFKC strings, the same image bytes under a second file name (open finding). Strings spelling enumeration member names / values or Python constants.",
     "C06": "Unit families: every numbered part family (slide, notes slide, chart + workbook, image, media) x 9 irregular numberings of the members a loaded deck has x three further additions; manufactured start decks with dense-permuted / shifted / holed slide names and image indices shared across extensions; the repository's 2 700 tests run under the monitors. Every numeric @id of a part is counted (OLE fallback pictures); every r:id / r:embed / r:link must designate a relationship of the kind the attribute asks for; decks with a blank hyperlink Target.",
